@@ -123,7 +123,7 @@ def run(ctx):
     EX, AU = ("exact",), ("auto",)
     # ---- T1: sizes 1..6, every offset in [-n-1, n+1], Exact and the default Auto, trace with both
     for n in range(1, 7):
-        for _ in range(ctx.budget(14, 120)):
+        for _ in range(ctx.budget(14, 220)):
             dt = rnd.choice(T.DTS)
             g = L.SqGen(rnd, dt, nonsq=nonsq_p)
             t = g.tree(n, rnd.randint(0, ctx.budget(3, 4)))
@@ -135,7 +135,7 @@ def run(ctx):
             tcases.append(dict(tree=t, n=n, dqs=dqs, tqs=[EX, AU], allk=[], cls="small"))
     # ---- T2: large compact trees, full model: structural kinds / cheap generic products
     for n in L.BIG:
-        for j in range(ctx.budget(2, 8)):
+        for j in range(ctx.budget(2, 10)):
             dt = rnd.choice(T.DTS)
             g = L.SqGen(rnd, dt, vmax=2)
             t = g.big_struct(n) if j % 2 == 0 else g.big_cheap_generic(n)
